@@ -164,11 +164,18 @@ PROPS = {
         trusted_base=['urllib.parse.unquote total', 'uniqueness of the decomposition of a string into &-segments (meta-argument)'],
     ),
     'C03': dict(
-        level='other', contracts=['C03', 'wsgi'], frames=[],
+        level='other', contracts=['C03', 'wsgi', 'cast'], frames=[],
         technique='bounded run-time contract check: independent PEP 3333 validator as postcondition of Ombott.__call__ over an enumerated '
                   'space of handler programs x methods x statuses x hook configurations',
-        explanation='BOUNDED: exhaustive product of handler programs; see coverage.bounded.',
-        level_text='Bounded contract check of the real application (never counted as proved).',
+        explanation='BOUNDED: exhaustive product of handler programs (coverage.bounded). PROVED per function: wsgi (one start_response after '
+                    '_cast, body suppression + single close for HEAD/1xx/204/304, last-resort 500, interrupts propagate), _handle (request/response '
+                    're-initialised first on every path, before-hooks -> routing -> handler, after-hooks exactly once, HTTPResponse returned, other '
+                    'exceptions -> 500 + traceback to wsgi.errors), _cast (every return shape, exact Content-Length, close attached once, error '
+                    'recasting, leading empty items skipped, termination), emit (snapshot), add_hook (order), apply (copy by value), the status '
+                    'setter (100..999, "<code> <reason>"), _closeiter.close.',
+        level_text='Every function between the server call and the handler is under contract and all their obligations are discharged for all '
+                   'handler results (by kind) and all callee outcomes; the composition of these contracts into the PEP 3333 statement is an '
+                   'argument on paper, so the level claimed stays `other`: the end-to-end statement is decided by the bounded validator run.',
         level_note='The handler-program space is finite and stated in coverage.bounded.bound.',
     ),
     'C08': dict(
